@@ -24,6 +24,7 @@ LEVEL = {
  "C17": ("DESIGN.md §5 C17", "Seeded search over write histories with notification subscribers that start, disconnect and resume (also across a restart and new term) on a real node; streams compared per offset with batches derived by the reference model from the committed log."),
  "C18": ("DESIGN.md §5 C18", "Seeded search over histories of cluster-config changes (namespaces added, removed, re-created at once with another shard count; servers added/removed; coordinator crashes) against the real coordinator, real nodes and real client-library shard managers on the simulated transport; every stored status and every assignment message must partition the hash space, shard ids must never be reused, and settled clients must route sampled keys like the published map."),
  "C19": ("DESIGN.md §5 C19", "Same config-history engine with labelled servers and namespaces carrying zero to two strict anti-affinity rules; every new or changed ensemble in every stored status is checked for size, distinctness, membership in the cluster configuration, anti-affinity among configured members, and one-member-at-a-time replacement (the real balancer and selectors make the choices)."),
+ "C20": ("DESIGN.md §5 C20", "Seeded search over batching knobs (linger, max requests per batch, request timeout), response chunking, delays and server-side failure placements with the real client library (oxia.NewAsyncClient) on the simulated clock and transport against scripted shard servers; every operation has a result that does not depend on interleaving, so exactly-once completion and 'the result of that very operation' are checked per call, and multi-shard list/scan/comparison-get against a sorted reference."),
 }
 NOTE = "Trusted base: the simulator (seeded go1.26.8 runtime overlay, synctest bubble clock, simsync mutexes, simulated gRPC transport, disk-durability tracker), the reference model and the oracle code under /verif/sim; Pebble and protobuf are run, not modelled. Findings are relative to the explored seeds/programs."
 checks = []
